@@ -169,6 +169,11 @@ def step (st : State) (w : List String) : State × String :=
       let st' := { st with sys := AutoTA.step params st.cfg st.sys (.damage d) }
       (st', obs st'.sys)
     | none => (st, "bad-op")
+  | ["autota", "killrun", fs, sg, k] =>
+    -- a new process runs the refresh and is SIGKILLed on entry to its (k+1)-th rename
+    if !st.started then (st, "bad-op") else
+    let st' := { st with sys := AutoTA.step params st.cfg st.sys .restart }
+    doRun st' fs sg "-" k
   | "autota" :: "run" :: fs :: sg :: fl :: cr :: _ =>
     if !st.started then (st, "bad-op") else doRun st fs sg fl cr
   | _ => (st, "bad-op")
